@@ -431,8 +431,9 @@ def rule_property_row(ctx):
 
     def cell(ch):
         first = ch.choose("first data-format row", [True, False])
-        name = ch.choose("name cell", ["Item delimiter", "ITEM DELIMITER", "item delimiter", "Format", "format", "FORMAT", ""])
-        value = ch.choose("value cell", ["X", "Delimited", "\"X\"", "Ä", "lf", "CRLF"])
+        name = ch.choose("name cell", ["Item delimiter", "ITEM DELIMITER", "item delimiter", "Format", "format", "FORMAT", "",
+                                       " Item delimiter", "Format ", "  "])
+        value = ch.choose("value cell", ["X", "Delimited", "\"X\"", "Ä", "lf", "CRLF", " Delimited "])
         seen = []
 
         @stub
@@ -457,14 +458,15 @@ def rule_property_row(ctx):
         except AbsRaise as raised:
             outcome = "raise " + exc_name(raised.value)
         key = "first=%s name=%r value=%r" % (first, name, value)
-        is_format = name.lower() == "format"
-        if name == "" or (first and not is_format) or (not first and is_format):
+        # blanks around the name of a property (and around the name of the format) do not change its meaning
+        is_format = name.strip().lower() == "format"
+        if name.strip() == "" or (first and not is_format) or (not first and is_format):
             return (key, outcome, "raise InterfaceError")
         if first:
-            expected = [("DataFormat", value.lower())]
+            expected = [("DataFormat", value.strip().lower())]
             actual = [entry[:2] for entry in seen]
         else:
-            expected = [("set_property", name.lower(), value)]
+            expected = [("set_property", name.strip().lower(), value)]
             actual = [entry[:3] for entry in seen]
         located = all(entry[-1] is location for entry in seen)
         return (key, (outcome, actual, "located" if located else "without the row's location"), ("accepted", expected, "located"))
